@@ -1,7 +1,592 @@
-//! `auth` driver
-use std::collections::HashMap;
+//! `auth` driver (C19): two REAL `AuthenticationBuiltin` plugins with CA-issued fixture identities
+//! run the three-message PKI-DH handshake; an attacker on the (plaintext) stateless channel delivers
+//! copies, replays from an earlier session, reflections and altered / forged variants of the
+//! messages at any point.  The driver dispatches every delivery to the plugin call that
+//! `discovery/secure_discovery.rs` would make in the receiver's discovery-level state
+//! (PendingRequestMessage -> begin_handshake_reply, PendingReplyMessage / PendingFinalMessage ->
+//! process_handshake, otherwise no plugin call) and logs inputs, outcome class, emitted message
+//! and what `get_shared_secret` hands out on both sides, for Trace_Handshake.tla.
+//!
+//! Message ids: 1/2/3 = request/reply/final emitted in this run, 11/12/13 = the same recorded from
+//! an earlier complete handshake of the same identities (replay material).
 
-pub fn main(_mode: &str, _opt: &HashMap<String, String>) -> i32 {
-    eprintln!("auth driver: not implemented");
-    2
+use std::{collections::HashMap, sync::OnceLock};
+
+use rand::{rngs::StdRng, Rng, SeedableRng};
+use rustdds::verif::auth_rig::{self, AuthRig, Tok, CLASS_FINAL, CLASS_REPLY, CLASS_REQ};
+use serde::{Deserialize, Serialize};
+use serde_json::{json, Value};
+
+use crate::util;
+
+#[derive(Clone, Debug, Serialize, Deserialize)]
+pub struct Act {
+    /// "Req" | "Dlv"
+    pub a: String,
+    #[serde(default)]
+    pub to: String,
+    #[serde(default)]
+    pub mid: u32,
+    /// "none" | "det" (driver picks a concrete detectable alteration) | concrete name, see `apply_alt`
+    #[serde(default)]
+    pub alt: String,
+    #[serde(default)]
+    pub pos: Option<usize>,
+    #[serde(default)]
+    pub mask: Option<u8>,
+}
+
+fn yes() -> bool {
+    true
+}
+
+#[derive(Clone, Debug, Serialize, Deserialize)]
+pub struct ARunSpec {
+    pub acts: Vec<Act>,
+    #[serde(default)]
+    pub seed: u64,
+    /// finish with the genuine continuation (each outstanding genuine message delivered once)
+    #[serde(default = "yes")]
+    pub cont: bool,
+}
+
+struct Fx {
+    ca: String,
+    perm: Vec<u8>,
+    /// identity of A (initiator, p2), B (replier, p1), third CA-issued identity, foreign-CA twins of A and B
+    a: (String, String),
+    b: (String, String),
+    third: (String, String),
+    fa: (String, String),
+    fb: (String, String),
+}
+
+static FX: OnceLock<Fx> = OnceLock::new();
+static SEED: OnceLock<u64> = OnceLock::new();
+
+fn load_fx(dir: &str) -> Fx {
+    let rd = |n: &str| std::fs::read_to_string(format!("{dir}/{n}")).unwrap_or_else(|e| panic!("fixture {dir}/{n}: {e}"));
+    Fx {
+        ca: rd("ca.cert.pem"),
+        perm: rd("perm.txt").into_bytes(),
+        a: (rd("p2.cert.pem"), rd("p2.key.pem")),
+        b: (rd("p1.cert.pem"), rd("p1.key.pem")),
+        third: (rd("p3.cert.pem"), rd("p3.key.pem")),
+        fa: (rd("f2.cert.pem"), rd("f2.key.pem")),
+        fb: (rd("f1.cert.pem"), rd("f1.key.pem")),
+    }
+}
+
+const CAND_A: [u8; 16] = [0xA1, 2, 3, 4, 5, 6, 7, 8, 9, 10, 11, 12, 0, 0, 1, 0xC1];
+const CAND_B: [u8; 16] = [0xB1, 2, 3, 4, 5, 6, 7, 8, 9, 10, 11, 12, 0, 0, 1, 0xC1];
+const CAND_T: [u8; 16] = [0xC1, 2, 3, 4, 5, 6, 7, 8, 9, 10, 11, 12, 0, 0, 1, 0xC1];
+
+const A: usize = 0;
+const B: usize = 1;
+
+fn pname(i: usize) -> &'static str {
+    if i == A {
+        "A"
+    } else {
+        "B"
+    }
+}
+
+fn new_rig(fx: &Fx) -> AuthRig {
+    let mut rig = AuthRig::new();
+    let a = rig.add_party(&fx.ca, &fx.a.0, &fx.a.1, &fx.perm, CAND_A).expect("fixture identity A");
+    let b = rig.add_party(&fx.ca, &fx.b.0, &fx.b.1, &fx.perm, CAND_B).expect("fixture identity B");
+    assert!(a == A && b == B);
+    rig
+}
+
+struct Old {
+    req: Tok,
+    reply: Tok,
+    fin: Tok,
+    third_guid: [u8; 16],
+}
+
+thread_local! {
+    static OLD: std::cell::RefCell<Option<std::rc::Rc<Old>>> = const { std::cell::RefCell::new(None) };
+}
+
+/// messages of an earlier, complete, genuine handshake of the same two identities
+fn old_session(fx: &Fx) -> std::rc::Rc<Old> {
+    OLD.with(|o| {
+        if let Some(x) = o.borrow().as_ref() {
+            return x.clone();
+        }
+        let mut rig = new_rig(fx);
+        rig.meet(A, B);
+        rig.meet(B, A);
+        let req = rig.begin_request(A, B).tok.expect("old session: request");
+        let reply = rig.begin_reply(B, A, &req).tok.expect("old session: reply");
+        let fin = rig.process(A, B, &reply).tok.expect("old session: final");
+        let t = rig.add_party(&fx.ca, &fx.third.0, &fx.third.1, &fx.perm, CAND_T).expect("fixture identity third");
+        let x = std::rc::Rc::new(Old { req, reply, fin, third_guid: rig.guid(t) });
+        *o.borrow_mut() = Some(x.clone());
+        x
+    })
+}
+
+fn fields_of(kind: &str) -> &'static [&'static str] {
+    match kind {
+        "req" => &["c.id", "c.perm", "c.pdata", "c.dsign_algo", "c.kagree_algo", "hash_c1", "dh1", "challenge1"],
+        "reply" => &["c.id", "c.perm", "c.pdata", "c.dsign_algo", "c.kagree_algo", "hash_c1", "dh1", "hash_c2", "dh2", "challenge1", "challenge2", "signature"],
+        _ => &["hash_c1", "dh1", "hash_c2", "dh2", "challenge1", "challenge2", "signature"],
+    }
+}
+
+/// symbolic (whole-field / forged) alterations applicable to a message kind
+fn symbolic_of(kind: &str) -> &'static [&'static str] {
+    match kind {
+        "req" => &["class", "foreign_cert", "foreign_full", "third_unbound", "unbound_guid", "swap_algo", "trunc"],
+        "reply" => &["class", "foreign_cert", "foreign_full", "third_unbound", "unbound_guid", "swap_algo", "trunc", "forge_final_foreign", "forge_final_third"],
+        _ => &["class", "foreign_full", "third_unbound", "trunc"],
+    }
+}
+
+fn kind_of(mid: u32) -> &'static str {
+    match mid % 10 {
+        1 => "req",
+        2 => "reply",
+        _ => "final",
+    }
+}
+
+/// every alteration the receiver is able to notice: all of them except bytes of dh1 / challenge1 of a request
+fn detectable(kind: &str) -> Vec<String> {
+    let mut v: Vec<String> = fields_of(kind)
+        .iter()
+        .filter(|f| !(kind == "req" && (**f == "dh1" || **f == "challenge1")))
+        .map(|f| format!("b:{f}"))
+        .collect();
+    v.extend(symbolic_of(kind).iter().map(|s| s.to_string()));
+    v
+}
+
+/// Builds the delivered token.  `by_a`: the base message was emitted by A (decides which foreign twin
+/// the attacker uses).  Returns None when the alteration does not apply.
+fn apply_alt(fx: &Fx, old: &Old, base: &Tok, by_a: bool, alt: &str, pos: usize, mask: u8) -> Option<Tok> {
+    let mut t = base.clone();
+    let foreign = if by_a { &fx.fa } else { &fx.fb };
+    let signed = t.class_id != CLASS_REQ;
+    match alt {
+        "none" => {}
+        "class" => {
+            t.class_id = if t.class_id == CLASS_REQ { CLASS_REPLY } else if t.class_id == CLASS_REPLY { CLASS_FINAL } else { CLASS_REQ }.to_string();
+        }
+        "foreign_cert" => {
+            t.get("c.id")?;
+            t.set("c.id", foreign.0.clone().into_bytes());
+        }
+        // the strongest forgery without the CA key: certificate of another CA with the same subject
+        // (so the GUID binding holds), hashes and signature made consistent with the attacker's key
+        "foreign_full" => {
+            if t.get("c.id").is_some() {
+                t.set("c.id", foreign.0.clone().into_bytes());
+                auth_rig::fix_hash(&mut t);
+            }
+            if signed {
+                auth_rig::resign(&mut t, &foreign.1).ok()?;
+            }
+        }
+        // a CA-issued insider presents its own certificate for the victim's GUID
+        "third_unbound" => {
+            if t.get("c.id").is_some() {
+                t.set("c.id", fx.third.0.clone().into_bytes());
+                auth_rig::fix_hash(&mut t);
+            }
+            if signed {
+                auth_rig::resign(&mut t, &fx.third.1).ok()?;
+            }
+        }
+        // (outside the generated catalogue) insider substitutes itself consistently, own GUID
+        "third_bound" => {
+            t.get("c.id")?;
+            t.set("c.id", fx.third.0.clone().into_bytes());
+            t.set("c.pdata", auth_rig::pdata_for(old.third_guid));
+            auth_rig::fix_hash(&mut t);
+            if signed {
+                auth_rig::resign(&mut t, &fx.third.1).ok()?;
+            }
+        }
+        "unbound_guid" => {
+            t.get("c.pdata")?;
+            let mut g = [0x5Au8; 16];
+            g[15] = 0xC1;
+            t.set("c.pdata", auth_rig::pdata_for(g));
+            auth_rig::fix_hash(&mut t);
+        }
+        "swap_algo" => {
+            let v = t.get("c.kagree_algo")?.clone();
+            let other: &[u8] = if v == b"ECDH+prime256v1-CEUM" { b"DH+MODP-2048-256" } else { b"ECDH+prime256v1-CEUM" };
+            t.set("c.kagree_algo", other.to_vec());
+        }
+        "trunc" => {
+            let f = fields_of(match t.class_id.as_str() {
+                CLASS_REQ => "req",
+                CLASS_REPLY => "reply",
+                _ => "final",
+            });
+            let name = f[pos % f.len()];
+            let mut v = t.get(name)?.clone();
+            v.pop()?;
+            t.set(name, v);
+        }
+        "forge_final_foreign" => {
+            if t.class_id != CLASS_REPLY {
+                return None;
+            }
+            // the reply was emitted by B; the attacker poses as A's foreign twin
+            t = auth_rig::forge_final(base, &fx.fa.1).ok()?;
+        }
+        "forge_final_third" => {
+            if t.class_id != CLASS_REPLY {
+                return None;
+            }
+            t = auth_rig::forge_final(base, &fx.third.1).ok()?;
+        }
+        other => {
+            let name = other.strip_prefix("b:")?;
+            let mut v = t.get(name)?.clone();
+            if v.is_empty() {
+                return None;
+            }
+            let i = pos % v.len();
+            v[i] ^= if mask == 0 { 1 } else { mask };
+            t.set(name, v);
+        }
+    }
+    Some(t)
+}
+
+struct Run<'a> {
+    fx: &'a Fx,
+    old: std::rc::Rc<Old>,
+    rig: AuthRig,
+    /// discovery-level state per party, as secure_discovery.rs keeps it
+    ds: [&'static str; 2],
+    /// genuine messages emitted in this run: index 1,2,3
+    emitted: [Option<Tok>; 4],
+    secrets: Vec<Vec<u8>>,
+    rng: StdRng,
+}
+
+impl<'a> Run<'a> {
+    fn sec_id(&mut self, i: usize) -> usize {
+        match self.rig.secret(i, 1 - i) {
+            None => 0,
+            Some(s) => match self.secrets.iter().position(|x| *x == s) {
+                Some(p) => p + 1,
+                None => {
+                    self.secrets.push(s);
+                    self.secrets.len()
+                }
+            },
+        }
+    }
+
+    fn outputs(&mut self, e: &mut Value) {
+        e["secA"] = json!(self.sec_id(A));
+        e["secB"] = json!(self.sec_id(B));
+        e["dbg"] = json!({"A": self.rig.state(A, B), "B": self.rig.state(B, A), "dsA": self.ds[A], "dsB": self.ds[B]});
+    }
+
+    fn req(&mut self, ev: &mut Vec<Value>) {
+        if self.ds[A] != "ReqSend" {
+            return;
+        }
+        let r = self.rig.begin_request(A, B);
+        let acc = r.ok && r.outcome == "PendingHandshakeMessage" && r.tok.is_some();
+        let mut e = json!({"ev":"Req","out": if acc {"acc"} else if r.outcome == "Panic" {"panic"} else {"rej"}, "emit": if acc {1} else {0}, "err": r.err});
+        if acc {
+            self.emitted[1] = r.tok;
+            self.ds[A] = "Reply";
+        }
+        self.outputs(&mut e);
+        ev.push(e);
+    }
+
+    fn base(&self, mid: u32) -> Option<Tok> {
+        match mid {
+            1..=3 => self.emitted[mid as usize].clone(),
+            11 => Some(self.old.req.clone()),
+            12 => Some(self.old.reply.clone()),
+            13 => Some(self.old.fin.clone()),
+            _ => None,
+        }
+    }
+
+    fn dlv(&mut self, act: &Act, ev: &mut Vec<Value>) {
+        let to = if act.to == "A" { A } else { B };
+        let Some(base) = self.base(act.mid) else { return };
+        let kind = kind_of(act.mid);
+        let mut alt = act.alt.clone();
+        if alt.is_empty() {
+            alt = "none".into();
+        }
+        if alt == "det" {
+            let c = detectable(kind);
+            alt = c[self.rng.gen_range(0..c.len())].clone();
+        }
+        let pos = act.pos.unwrap_or_else(|| self.rng.gen_range(0..4096));
+        let mask = act.mask.unwrap_or_else(|| 1u8 << self.rng.gen_range(0..8));
+        let by_a = kind != "reply";
+        let Some(msg) = apply_alt(self.fx, &self.old, &base, by_a, &alt, pos, mask) else { return };
+        // an alteration that leaves the token unchanged is no alteration
+        let alt = if msg == base { "none".to_string() } else { alt };
+        let call = match self.ds[to] {
+            "ReqMsg" => "begin_reply",
+            "Reply" | "Final" => "process",
+            _ => "none",
+        };
+        let r = match call {
+            "begin_reply" => Some(self.rig.begin_reply(to, 1 - to, &msg)),
+            "process" => Some(self.rig.process(to, 1 - to, &msg)),
+            _ => None,
+        };
+        let mut out = "ign";
+        let mut emit = 0;
+        let mut err = String::new();
+        if let Some(r) = r {
+            err = r.err.clone();
+            // outcome classes exactly as secure_discovery.rs matches them
+            let acc = match (call, self.ds[to]) {
+                ("begin_reply", _) => r.ok && r.outcome == "PendingHandshakeMessage" && r.tok.is_some(),
+                ("process", "Reply") => r.ok && r.outcome == "OkFinalMessage" && r.tok.is_some(),
+                ("process", _) => r.ok && r.outcome == "Ok" && r.tok.is_none(),
+                _ => false,
+            };
+            out = if acc {
+                "acc"
+            } else if r.outcome == "Panic" {
+                "panic"
+            } else {
+                "rej"
+            };
+            if acc {
+                match (call, self.ds[to]) {
+                    ("begin_reply", _) => {
+                        self.emitted[2] = r.tok;
+                        emit = 2;
+                        self.ds[to] = "Final";
+                    }
+                    ("process", "Reply") => {
+                        self.emitted[3] = r.tok;
+                        emit = 3;
+                        self.ds[to] = "DoneS";
+                    }
+                    _ => self.ds[to] = "DoneR",
+                }
+            }
+        }
+        // which fields of the delivered token differ from the message it derives from (a fact, not a class)
+        let mut diff: Vec<String> = vec![];
+        if msg.class_id != base.class_id {
+            diff.push("class".into());
+        }
+        for (n, v) in &base.props {
+            if msg.get(n) != Some(v) {
+                diff.push(n.clone());
+            }
+        }
+        for (n, _) in &msg.props {
+            if base.get(n).is_none() {
+                diff.push(format!("+{n}"));
+            }
+        }
+        let diff = diff.join(",");
+        let mut e = json!({"ev":"Dlv","to":pname(to),"mid":act.mid,"k":kind,"alt":alt,"diff":diff,"pos":pos,"mask":mask,"call":call,"out":out,"emit":emit,"err":err});
+        self.outputs(&mut e);
+        ev.push(e);
+    }
+
+    /// the genuine exchange carries on: every outstanding genuine message is delivered once
+    fn continuation(&mut self, ev: &mut Vec<Value>) {
+        self.req(ev);
+        let d = |to: &str, mid: u32| Act { a: "Dlv".into(), to: to.into(), mid, alt: "none".into(), pos: Some(0), mask: Some(1) };
+        if self.emitted[1].is_some() && self.ds[B] != "DoneR" {
+            // B waits for the request, or answered something else before: the genuine request (again)
+            let answered_genuine = ev.iter().any(|e| e["ev"] == "Dlv" && e["to"] == "B" && e["mid"] == 1 && e["alt"] == "none" && e["out"] == "acc");
+            if !answered_genuine {
+                self.dlv(&d("B", 1), ev);
+            }
+        }
+        if self.emitted[2].is_some() && self.ds[A] == "Reply" {
+            self.dlv(&d("A", 2), ev);
+        }
+        if self.emitted[3].is_some() && self.ds[B] == "Final" {
+            self.dlv(&d("B", 3), ev);
+        }
+    }
+}
+
+pub fn run_one(k: usize, spec: &ARunSpec, ev: &mut Vec<Value>) -> Vec<Vec<u8>> {
+    let fx = FX.get().expect("fixtures not loaded");
+    let old = old_session(fx);
+    let mut rig = new_rig(fx);
+    let meet_a = rig.meet(A, B);
+    let meet_b = rig.meet(B, A);
+    ev.push(json!({"ev":"Reset","run":k,"meetA":meet_a,"meetB":meet_b}));
+    let seed = *SEED.get().unwrap_or(&1);
+    let mut run = Run {
+        fx,
+        old,
+        rig,
+        ds: ["ReqSend", "ReqMsg"],
+        emitted: [None, None, None, None],
+        secrets: vec![],
+        rng: StdRng::seed_from_u64(seed ^ spec.seed ^ ((k as u64) << 20) ^ 0xC19),
+    };
+    for act in &spec.acts {
+        match act.a.as_str() {
+            "Req" => run.req(ev),
+            "Dlv" => run.dlv(act, ev),
+            _ => {}
+        }
+    }
+    if spec.cont {
+        run.continuation(ev);
+    }
+    let mut e = json!({"ev":"End"});
+    run.outputs(&mut e);
+    ev.push(e);
+    vec![]
+}
+
+fn dl(to: &str, mid: u32, alt: &str, pos: Option<usize>, mask: Option<u8>) -> Act {
+    Act { a: "Dlv".into(), to: to.into(), mid, alt: alt.into(), pos, mask }
+}
+
+fn rq() -> Act {
+    Act { a: "Req".into(), to: "A".into(), mid: 0, alt: "none".into(), pos: None, mask: None }
+}
+
+/// genuine prefix that brings the receiver of message `mid` into the state that waits for it
+fn prefix_for(mid: u32) -> Vec<Act> {
+    match mid {
+        1 => vec![rq()],
+        2 => vec![rq(), dl("B", 1, "none", None, None)],
+        _ => vec![rq(), dl("B", 1, "none", None, None), dl("A", 2, "none", None, None)],
+    }
+}
+
+/// Systematic part: every byte of every field of each of the three messages (one single-bit
+/// alteration per byte and run; `bits` > 1 repeats with other bits), every symbolic alteration, the
+/// replays, injected where the receiver waits for exactly that message, followed by the genuine one.
+fn sweep_specs(fx: &Fx, bits: usize, rng: &mut StdRng) -> Vec<ARunSpec> {
+    let old = old_session(fx);
+    let mut v = vec![];
+    // plain genuine handshake
+    v.push(ARunSpec { acts: vec![], seed: 0, cont: true });
+    for mid in [1u32, 2, 3] {
+        let kind = kind_of(mid);
+        let to = if mid == 2 { "A" } else { "B" };
+        let sample = match mid {
+            1 => &old.req,
+            2 => &old.reply,
+            _ => &old.fin,
+        };
+        for f in fields_of(kind) {
+            let len = sample.get(f).map(|x| x.len()).unwrap_or(0);
+            for pos in 0..len {
+                for _ in 0..bits {
+                    let mut acts = prefix_for(mid);
+                    acts.push(dl(to, mid, &format!("b:{f}"), Some(pos), Some(1u8 << rng.gen_range(0..8))));
+                    v.push(ARunSpec { acts, seed: 0, cont: true });
+                }
+            }
+        }
+        for s in symbolic_of(kind) {
+            for pos in 0..(if *s == "trunc" { fields_of(kind).len() } else { 1 }) {
+                for target in ["A", "B"] {
+                    let mut acts = prefix_for(mid);
+                    acts.push(dl(target, mid, s, Some(pos), Some(1)));
+                    v.push(ARunSpec { acts, seed: 0, cont: true });
+                }
+            }
+        }
+        // replays of the earlier session and of this session, reflections, at the point of `mid`
+        for m2 in [1u32, 2, 3, 11, 12, 13] {
+            for target in ["A", "B"] {
+                let mut acts = prefix_for(mid);
+                acts.push(dl(target, m2, "none", None, None));
+                v.push(ARunSpec { acts, seed: 0, cont: true });
+            }
+        }
+    }
+    // composite forgeries: a foreign-CA / unbound insider initiator runs the whole exchange against B
+    for (a1, a2) in [("foreign_full", "forge_final_foreign"), ("third_unbound", "forge_final_third"), ("foreign_cert", "forge_final_foreign")] {
+        for base in [1u32, 11] {
+            let mut acts = if base == 1 { vec![rq()] } else { vec![] };
+            acts.push(dl("B", base, a1, None, None));
+            acts.push(dl("B", 2, a2, None, None));
+            v.push(ARunSpec { acts, seed: 0, cont: true });
+        }
+    }
+    v
+}
+
+fn random_schedule(rng: &mut StdRng, events: usize) -> ARunSpec {
+    let n = rng.gen_range(1..=events.max(1));
+    let mut acts = vec![];
+    for _ in 0..n {
+        let r = rng.gen_range(0..100);
+        if r < 12 {
+            acts.push(rq());
+            continue;
+        }
+        let mid = [1u32, 2, 3, 1, 2, 3, 11, 12, 13][rng.gen_range(0..9)];
+        let kind = kind_of(mid);
+        let natural = if mid % 10 == 2 { "A" } else { "B" };
+        let to = if rng.gen_range(0..100) < 85 { natural } else if natural == "A" { "B" } else { "A" };
+        let alt = match rng.gen_range(0..100) {
+            0..=44 => "none".to_string(),
+            45..=84 => "det".to_string(),
+            _ if kind == "req" => ["b:dh1", "b:challenge1"][rng.gen_range(0..2)].to_string(),
+            _ => "det".to_string(),
+        };
+        acts.push(dl(to, mid, &alt, None, None));
+    }
+    ARunSpec { acts, seed: rng.gen(), cont: true }
+}
+
+pub fn random_specs(seed: u64, runs: usize, events: usize, bits: usize) -> Vec<ARunSpec> {
+    let fx = FX.get().expect("fixtures not loaded");
+    let mut rng = StdRng::seed_from_u64(seed ^ 0xA07);
+    let mut v = sweep_specs(fx, bits, &mut rng);
+    while v.len() < runs {
+        v.push(random_schedule(&mut rng, events));
+    }
+    v
+}
+
+pub fn main(mode: &str, opt: &HashMap<String, String>) -> i32 {
+    let dir = opt
+        .get("fx")
+        .cloned()
+        .or_else(|| std::env::var("VERIF_FIXTURES_AUTH").ok())
+        .unwrap_or_else(|| {
+            // <verif>/harness/target-sec/debug/vh -> <verif>/fixtures/auth
+            let exe = std::env::current_exe().unwrap();
+            exe.ancestors().nth(4).unwrap().join("fixtures/auth").to_string_lossy().into_owned()
+        });
+    let _ = FX.set(load_fx(&dir));
+    let _ = SEED.set(util::get(opt, "seed", 1));
+    match mode {
+        "replay" => {
+            let specs: Vec<ARunSpec> = util::read_jsonl(&opt["in"]);
+            util::run_parallel(opt, specs, run_one)
+        }
+        "random" => {
+            let specs = random_specs(util::get(opt, "seed", 1), util::get(opt, "runs", 100), util::get(opt, "events", 8), util::get(opt, "bits", 1));
+            util::run_parallel(opt, specs, run_one)
+        }
+        _ => {
+            eprintln!("auth driver: unknown mode {mode}");
+            2
+        }
+    }
 }
